@@ -118,6 +118,8 @@ impl CCase {
             "hash_len": self.spec.hash_len,
             "buffered": self.spec.buffered,
             "stdin": self.spec.stdin,
+            "force": self.spec.force,
+            "preexisting": self.spec.preexisting,
             "writer": self.writer.name(),
             "meta_values": self.spec.metadata_values,
             "meta_files": self.spec.metadata_files.iter().map(|(k, v)| (k.clone(), hex(v))).collect::<Vec<_>>(),
@@ -139,6 +141,8 @@ impl CCase {
         let mut spec = CompressSpec::new(super::c09::cfg_from(&v["cfg"]), comp, v["hash_len"].as_u64().unwrap() as usize);
         spec.buffered = v["buffered"].as_u64().map(|x| x as usize);
         spec.stdin = v["stdin"].as_u64();
+        spec.force = v["force"].as_bool().unwrap_or(false);
+        spec.preexisting = v["preexisting"].as_u64().map(|x| x as usize);
         spec.metadata_values = v["meta_values"]
             .as_array()
             .map(|a| {
@@ -239,6 +243,16 @@ pub fn gen_case(rng: &mut Rng, large: bool, cheap_comp: bool) -> CCase {
     if writer == Writer::CliStdin {
         spec.stdin = Some(if rng.chance(1, 3) { 0 } else { rng.next_u64() | 1 });
     }
+    if cli && rng.chance(1, 5) {
+        // --force-create over an existing file: smaller, about equal, or much larger than
+        // the archive that will be written.
+        spec.force = true;
+        spec.preexisting = Some(match rng.below(4) {
+            0 => rng.urange(0, 100),
+            1 => src_len + rng.urange(0, 2000),
+            _ => src_len * 2 + rng.urange(1000, 300_000),
+        });
+    }
     // With 4/5-byte hashes keep the number of distinct chunks tiny relative to 2^32.
     let src_class = *rng.pick(&gen::SRC_CLASSES);
     CCase {
@@ -315,6 +329,11 @@ fn handoff(o: &Outcome, temp_widx: i32) -> (Option<bool>, usize) {
 pub fn run_cli(dir: &Path, name: &str, source: &[u8], spec: &CompressSpec, inj: &Injection) -> CObs {
     let (mut run, out_path) = scn::compress_run(dir, name, source, spec);
     let _ = std::fs::remove_file(&out_path);
+    if let (true, Some(n)) = (spec.force, spec.preexisting) {
+        // An older file at the output path, to be replaced by --force-create.
+        let junk = Rng::new(n as u64 ^ 0x01d).bytes(n);
+        std::fs::write(&out_path, junk).expect("write pre-existing output");
+    }
     let temp = scn::temp_path_of(&out_path);
     let src_path = dir.join(format!("{}.src", name));
     run.watch = vec![out_path.clone(), temp.clone(), src_path];
